@@ -42,7 +42,7 @@ def nm_globals(build):
 
 
 def ast_of(build, cpp):
-    cmd = ["clang++-14", "-std=gnu++17", "-DHAS_PUGIXML", "-fsyntax-only", "-Xclang", "-ast-dump=json", "-Xclang", "-ast-dump-filter=libecpint"] + \
+    cmd = ["clang++-14", "-std=gnu++17", "-DHAS_PUGIXML", "-DLIBECPINT_VERIF", "-fsyntax-only", "-Xclang", "-ast-dump=json", "-Xclang", "-ast-dump-filter=libecpint"] + \
           ["-I" + i for i in build.includes] + ["-I" + os.path.join(build.src, "external", "Faddeeva"), cpp]
     r = subprocess.run(cmd, stdout=subprocess.PIPE, stderr=subprocess.PIPE, text=True)
     if r.returncode != 0:
